@@ -61,6 +61,13 @@ def plan(tier):
 
 
 def rdata(rng, n):
+    k = rng.random()
+    if k < .15 and n > 8:
+        # one chunk over and over (tables, cleared or preset regions): every
+        # packet's payload of a long transfer is then byte-identical
+        unit = bytes(rng.getrandbits(8)
+                     for _ in range(rng.choice([1, 4, 16, 64, 128, 256])))
+        return (unit * (n // len(unit) + 1))[:n]
     return bytes(rng.getrandbits(8) for _ in range(n))
 
 
